@@ -82,7 +82,25 @@ def parseDecimalRat (cs : List Char) : Option (Bool × Nat × Nat) :=
 def parseF64 (cs : List Char) : Option Float :=
   (parseDecimalRat cs).map fun (neg, n, d) => ratToFloat neg n d
 
-def natToDigits (n : Nat) : List Char := (toString n).toList
+/-- digit character of a value < 16 (upper-case hex digits, as `{:X}` prints them) -/
+def radixDigit (d : Nat) : Char := if d < 10 then Char.ofNat (48 + d) else Char.ofNat (55 + d)
+
+/-- value of a digit character in any base up to 16, both letter cases -/
+def digitOf (c : Char) : Nat :=
+  if c.toNat < 58 then c.toNat - 48 else if c.toNat < 97 then c.toNat - 55 else c.toNat - 87
+
+def natToRadix (radix : Nat) : Nat → Nat → List Char
+  | 0, _ => []
+  | fuel + 1, n => if n = 0 then [] else natToRadix radix fuel (n / radix) ++ [radixDigit (n % radix)]
+
+/-- digits of `n` in base `radix` (at least one digit, no leading zeros) -/
+def radixDigits (radix n : Nat) : List Char :=
+  if n = 0 then ['0'] else natToRadix radix (n + 1) n
+
+/-- value of a digit string in base `radix` -/
+def radixValue (radix : Nat) (cs : List Char) : Nat := cs.foldl (fun a c => a * radix + digitOf c) 0
+
+def natToDigits (n : Nat) : List Char := radixDigits 10 n
 
 /-- left-pad with zeros to width w -/
 def padZeros (w : Nat) (cs : List Char) : List Char := List.replicate (w - cs.length) '0' ++ cs
